@@ -35,11 +35,12 @@ DIST_CELLS = [
     ("rejection-uniform", "G2u", {}, False, "rejection"),
     ("rejection-nonuniform", "G2n", {}, False, "rejection"),
     ("rejection-nonuniform-box-draws", "G2r", {}, False, "rejection"),
+    ("rejection-narrow-prior-box-draws", "G2rn", {}, False, "rejection"),
     ("analytic-nonuniform", "G2n", {}, False, "analytic"),
     ("analytic-uniform", "G4u", {}, False, "analytic"),
 ]
 QUICK_DIST = ["tg-constant-volume", "tg-constant-volume-brief-training", "tg-nonuniform-prior", "tg-worst-point-radius", "nball", "accumulate-weights", "truncate-log-q",
-              "logit-reparam", "drawsize-200", "accumulate-weights-many-batches", "latent-gaussian", "rejection-nonuniform", "rejection-nonuniform-box-draws", "analytic-nonuniform"]
+              "logit-reparam", "drawsize-200", "accumulate-weights-many-batches", "latent-gaussian", "rejection-nonuniform", "rejection-nonuniform-box-draws", "rejection-narrow-prior-box-draws", "analytic-nonuniform"]
 
 
 def ks2(a, b):
